@@ -847,6 +847,10 @@ pub struct C17Case {
     /// re-sent on it have been accepted; a third connection must then re-send everything again
     #[serde(default)]
     pub second_outage: u16,
+    /// reconnection attempts that the server refuses (CONNACK reason >= 0x80) or that die
+    /// (end-of-stream before / inside the CONNACK) between the loss and the successful resumption
+    #[serde(default)]
+    pub failed_attempts: Vec<u8>,
 }
 
 pub struct C17;
@@ -1004,6 +1008,30 @@ fn run_c17(case: &C17Case, cut: usize, o: &mut Outcome) -> Option<Failure> {
     spec2.clean_start = Some(false);
     let mut connack2 = connack.clone();
     connack2.session_present = alive;
+    for a in &case.failed_attempts {
+        // an attempt that does not get through: the session (if alive) must survive it
+        w.tick();
+        w.start_connect(spec2.clone());
+        settle(&mut w, &plan, false);
+        match a % 4 {
+            0 => w.reader.feed(rc::encode(&rc::Packet::Connack(rc::Connack { reason: 0x88, ..Default::default() }), &rc::Form::canonical())),
+            1 => w.reader.feed(rc::encode(&rc::Packet::Connack(rc::Connack { reason: 0x87, reason_string: Some("not now".into()), ..Default::default() }), &rc::Form::canonical())),
+            2 => w.reader.set_eof(),
+            _ => {
+                w.reader.feed(vec![0x20, 0x03, 0x00]);
+                settle(&mut w, &plan, false);
+                w.reader.set_eof();
+            }
+        }
+        settle(&mut w, &plan, false);
+        if !matches!(w.conn_results.last(), Some(ConnRes::Err(_))) {
+            return None; // C13 judges what connect() returns
+        }
+        if !w.set_up_again() {
+            return Some(Failure { sig: "HARNESS/reconnect".into(), msg: "context not available after a failed attempt".into() });
+        }
+        o.class("failed-reconnection-attempt-before-the-resumption");
+    }
     w.tick();
     w.start_connect(spec2);
     settle(&mut w, &plan, false);
@@ -1432,12 +1460,13 @@ impl Property for C17 {
             any::<bool>(),
             prop_oneof![Just(Ago::Now), Just(Ago::HalfExpiry), Just(Ago::LongAfterExpiry)],
         )
-            .prop_map(|(history, expiry, connack_repeats, ago)| C17Case { history, expiry, connack_repeats, ago, queued_during_outage: false, second_outage: 0 })
+            .prop_map(|(history, expiry, connack_repeats, ago)| C17Case { history, expiry, connack_repeats, ago, queued_during_outage: false, second_outage: 0, failed_attempts: vec![] })
             .boxed();
-        (s, prop::bool::weighted(0.3), prop_oneof![2 => Just(0u16), 1 => 1u16..400])
-            .prop_map(|(mut c, q, so)| {
+        (s, prop::bool::weighted(0.3), prop_oneof![2 => Just(0u16), 1 => 1u16..400], prop_oneof![3 => Just(vec![]), 1 => vec(0u8..4, 1..3)])
+            .prop_map(|(mut c, q, so, fa)| {
                 c.queued_during_outage = q;
                 c.second_outage = so;
+                c.failed_attempts = fa;
                 c
             })
             .boxed()
